@@ -60,6 +60,7 @@ type C18Report struct {
 	RepsParallel int `json:"reps_parallel,omitempty"` // repetitions in which >= 2 goroutines' run intervals intersected (wall clock, evidence only)
 	Compared     int `json:"compared,omitempty"`      // results compared with the sequential ones
 	MaxRepCPUms  int `json:"max_rep_cpu_ms,omitempty"` // most CPU time one repetition took (margin to C18RepBudget)
+	PutReplaces  int `json:"put_replaces,omitempty"`   // histories only explained by "Put replaces a resident value"
 }
 
 // C18RepBudget bounds the CPU time the child process may burn on ONE
